@@ -1,3 +1,542 @@
+// C31: a block counts as notarized only with enough verified tickets.
+//
+// Node under test: miner m0 of the 4-miner magic block (threshold from config: ceil(66% of 4) = 3).
+// An honest block B of round 1 is produced by the real generateBlock as m1. The harness holds all
+// four miner keys and one outsider key and delivers to m0, through the real handlers
+//
+//	BLOCK(list)   B as received on the wire with the ticket list attached   -> processVerifyBlock
+//	NOTAR(list)   a notarization message for B carrying the list            -> handleNotarizationMessage, notarizationProcess
+//	NBLOCK(list)  B as a "notarized block" message with the list attached   -> handleNotarizedBlockMessage
+//	TICKET(i,k)   one verification-ticket message                           -> handleVerificationTicketMessage
+//
+// where a list assigns to every miner one of {absent, valid, bad signature (other key), valid for
+// another block hash, duplicated valid} and optionally adds an outsider's ticket.
+//
+//	part A  all 1250 lists x 5 single-list delivery shapes x 2 round seeds
+//	part B  all sequences of L ticket messages over 13 letters (4 miners x {valid, bad, other hash} +
+//	        outsider), the same letter may repeat, with BLOCK(no tickets) at every position or absent
+//	part C  all sequences of <= 3 messages over BLOCK/NOTAR of 7 representative lists and 8 ticket letters
+//
+// After EVERY delivery: if m0 treats B as notarized (a block object it holds for B's hash, or the
+// received object, answers IsBlockNotarized(), or round 1's notarized list contains the hash), then
+// the number of DISTINCT miners of the magic block for which some delivered ticket carries a valid
+// signature on B's hash (reference: fresh BLS scheme, the miner's public key) must be >= threshold.
 package main
 
-func c31() {}
+import (
+	"bytes"
+	"fmt"
+	"sort"
+	"strings"
+	"time"
+
+	"0chain.net/chaincore/block"
+	"0chain.net/chaincore/round"
+	"0chain.net/chaincore/transaction"
+	"0chain.net/core/common"
+	"0chain.net/core/datastore"
+	"0chain.net/core/encryption"
+	"0chain.net/miner"
+	"verif/lib/ev"
+	"verif/lib/world"
+)
+
+const (
+	tkAbsent = iota
+	tkValid
+	tkBadSig
+	tkOtherHash
+	tkDup
+)
+
+var tkNames = []string{"-", "valid", "badsig", "otherhash", "dup"}
+
+type c31msg struct {
+	Type string // BLOCK NOTAR NBLOCK TICKET
+	List []int  // per miner variant (len 4) + outsider flag (len 5) for list-carrying messages
+	Who  int    // TICKET: miner index, 4 = outsider
+	Kind int    // TICKET: tkValid / tkBadSig / tkOtherHash
+}
+
+func (m c31msg) String() string {
+	if m.Type == "TICKET" {
+		who := fmt.Sprintf("m%d", m.Who)
+		if m.Who == 4 {
+			who = "outsider"
+		}
+		return fmt.Sprintf("TICKET(%s,%s)", who, tkNames[m.Kind])
+	}
+	var parts []string
+	for i, v := range m.List {
+		if v == tkAbsent {
+			continue
+		}
+		if i == 4 {
+			parts = append(parts, "outsider:valid")
+		} else {
+			parts = append(parts, fmt.Sprintf("m%d:%s", i, tkNames[v]))
+		}
+	}
+	return m.Type + "[" + strings.Join(parts, " ") + "]"
+}
+
+type c31env struct {
+	*c45env
+	so        *shardOut
+	H         string
+	otherH    string
+	wireB     []byte
+	seed      int64
+	threshold int
+	outsider  *world.Actor
+	pubs      []string
+	sig       map[string]string // memo "who/kind" -> signature
+	refMemo   map[string]bool
+}
+
+func (e *c31env) ticket(who, kind int) *block.VerificationTicket {
+	k := fmt.Sprintf("%d/%d", who, kind)
+	id := e.outsider.ID
+	if who < 4 {
+		id = e.w.Miners[who].ID
+	}
+	if s, ok := e.sig[k]; ok {
+		return &block.VerificationTicket{VerifierID: id, Signature: s}
+	}
+	var s string
+	var err error
+	switch {
+	case who == 4:
+		s, err = e.outsider.Scheme.Sign(e.H)
+	case kind == tkValid || kind == tkDup:
+		s, err = e.w.Miners[who].Scheme.Sign(e.H)
+	case kind == tkBadSig:
+		s, err = e.outsider.Scheme.Sign(e.H) // right hash, wrong key
+	case kind == tkOtherHash:
+		s, err = e.w.Miners[who].Scheme.Sign(e.otherH)
+	}
+	if err != nil {
+		ev.Fatal("sign ticket: %v", err)
+	}
+	e.sig[k] = s
+	return &block.VerificationTicket{VerifierID: id, Signature: s}
+}
+
+func (e *c31env) tickets(list []int) []*block.VerificationTicket {
+	var out []*block.VerificationTicket
+	for i, v := range list {
+		switch {
+		case v == tkAbsent:
+		case i == 4:
+			out = append(out, e.ticket(4, tkValid))
+		case v == tkDup:
+			out = append(out, e.ticket(i, tkValid), e.ticket(i, tkValid))
+		default:
+			out = append(out, e.ticket(i, v))
+		}
+	}
+	return out
+}
+
+// refValid: is this a valid signature of a magic-block miner on B's hash? (reference)
+func (e *c31env) refValid(vt *block.VerificationTicket) (int, bool) {
+	for i, a := range e.w.Miners {
+		if a.ID != vt.VerifierID {
+			continue
+		}
+		k := a.ID + "|" + vt.Signature
+		if v, ok := e.refMemo[k]; ok {
+			return i, v
+		}
+		s := encryption.NewBLS0ChainScheme()
+		if err := s.SetPublicKey(a.PublicKey); err != nil {
+			ev.Fatal("ref scheme: %v", err)
+		}
+		ok, _ := s.Verify(vt.Signature, e.H)
+		e.refMemo[k] = ok
+		return i, ok
+	}
+	return -1, false
+}
+
+func (e *c31env) decodeBlock(list []int) *block.Block {
+	rb := datastore.GetEntityMetadata("block").Instance().(*block.Block)
+	if err := datastore.FromMsgpack(bytes.NewReader(e.wireB), rb); err != nil {
+		ev.Fatal("decode block: %v", err)
+	}
+	if list == nil {
+		return rb
+	}
+	// attach the tickets and send it over the wire once more, as a byzantine sender would
+	rb.VerificationTickets = e.tickets(list)
+	buf := datastore.ToMsgpack(rb)
+	rb2 := datastore.GetEntityMetadata("block").Instance().(*block.Block)
+	if err := datastore.FromMsgpack(bytes.NewReader(buf.Bytes()), rb2); err != nil {
+		ev.Fatal("decode block with tickets: %v", err)
+	}
+	return rb2
+}
+
+func c31() {
+	run := ev.Start("C31")
+	L := run.Pick(3, 4)
+	if _, _, isWorker := shard(); isWorker {
+		c31worker(run, L)
+		return
+	}
+	t := fanout(run)
+	// keep, per handler, only the violations whose set of non-contributing ticket kinds is minimal
+	var keep []vio
+	for _, v := range t.Violations {
+		dominated := false
+		for _, o := range t.Violations {
+			if o.Key != v.Key && c31Path(o.Key) == c31Path(v.Key) && c31Subset(c31Kinds(o.Key), c31Kinds(v.Key)) {
+				dominated = true
+			}
+		}
+		if !dominated {
+			keep = append(keep, v)
+		}
+	}
+	t.Violations = keep
+	report(run, t)
+	run.Rule = "part A: all 5^4 x 2 ticket lists (per miner absent/valid/bad signature/other hash/duplicated, outsider ticket or not) x 5 single-list delivery shapes x 2 round seeds; part B: all sequences of L individual ticket messages over 13 letters (repeats allowed) x position of the ticket-less block (6 incl. absent); part C: all sequences of <= 3 messages over 22 letters (block / notarization with 7 representative lists, 8 ticket letters), at most one block message; oracle after every delivery; distinct = (delivery shape, #valid distinct miners, tickets held, notarized?) classes"
+	run.Bounds["ticket_message_sequence_length"] = L
+	run.Bounds["miners"] = 4
+	run.Bounds["threshold"] = t.Counters["threshold"] / maxI64(t.Counters["workers"], 1)
+	delete(t.Counters, "threshold")
+	run.Assumptions = []string{
+		"the node's current round is 2 while the messages concern round 1 (blocks of round >= current-1 are processed), so that ProgressOnNotarization does not start background round changes; everything else is the production path",
+		"messages enter at the miner-level handlers (processVerifyBlock, handleNotarizationMessage + notarizationProcess as the NotarizationProcessWorker runs it, handleNotarizedBlockMessage, handleVerificationTicketMessage); the HTTP-level pre-filters only drop messages, so at most one BLOCK message per scenario is delivered (a second copy with the same hash would be dropped there)",
+		"reading: valid tickets of distinct miners count wherever they were carried (attached tickets that verify are not a violation); 'valid' = reference BLS verification under the miner's registered public key",
+		"a notarization for a block the node does not hold leads to a fetch from other nodes, which finds nobody; recorded as outcome",
+	}
+	run.Finish()
+}
+
+func maxI64(a, b int64) int64 {
+	if a > b {
+		return a
+	}
+	return b
+}
+
+func c31Path(key string) string  { return strings.SplitN(key, ":", 4)[1] }
+func c31Kinds(key string) []string {
+	i := strings.Index(key, "[")
+	if i < 0 {
+		return nil
+	}
+	return strings.Split(strings.TrimSuffix(key[i+1:], "]"), ",")
+}
+func c31Subset(a, b []string) bool { // a strict subset of b
+	if len(a) >= len(b) {
+		return false
+	}
+	for _, x := range a {
+		found := false
+		for _, y := range b {
+			if x == y {
+				found = true
+			}
+		}
+		if !found {
+			return false
+		}
+	}
+	return true
+}
+
+func c31worker(run *ev.Run, L int) {
+	idx, nsh, _ := shard()
+	deadline := workerDeadline(run, 170, 840)
+	w := world.New(c45Options(false))
+	m := setupMiner(w)
+	base := &c45env{m: m, w: w, now: common.Now()}
+	so := newShardOut()
+	e := &c31env{c45env: base, so: so, sig: map[string]string{}, refMemo: map[string]bool{}, outsider: world.DetKey("c31-outsider")}
+
+	// the honest block B of round 1, generated by m1
+	_, n0 := world.Balance(w.Genesis.ClientState, w.Clients[0].ID)
+	_, n1 := world.Balance(w.Genesis.ClientState, w.Clients[1].ID)
+	alpha := base.alphabet([]int64{n0, n1}, "c31")
+	e.seed = 424242
+	B, err := base.generate(1, w.Genesis, nil, 1, e.seed, []*transaction.Transaction{alpha[0].T})
+	if err != nil {
+		ev.Fatal("generate B: %v", err)
+	}
+	e.H = B.Hash
+	e.otherH = encryption.Hash("verif-c31-other-block")
+	e.wireB = datastore.ToMsgpack(B).Bytes()
+	base.become(0)
+	e.threshold = m.MC.GetNotarizationThresholdCount(m.MB.Miners.Size())
+	so.Counters["threshold"] = int64(e.threshold)
+	so.Counters["workers"] = 1
+
+	counter := 0
+	do := func(part string, seedSame bool, msgs []c31msg) {
+		counter++
+		if counter%nsh != idx {
+			return
+		}
+		if so.Capped == "" && time.Now().After(deadline) {
+			so.Capped = "worker time budget reached in part " + part
+		}
+		if so.Capped != "" {
+			return
+		}
+		e.scenario(part, seedSame, msgs)
+	}
+
+	// ---- part A
+	var lists [][]int
+	for code := 0; code < 5*5*5*5*2; code++ {
+		l := make([]int, 5)
+		c := code
+		for i := 0; i < 4; i++ {
+			l[i] = c % 5
+			c /= 5
+		}
+		l[4] = c % 2
+		lists = append(lists, l)
+	}
+	sort.SliceStable(lists, func(i, j int) bool { return len(e.tickets(lists[i])) < len(e.tickets(lists[j])) })
+	empty := []int{0, 0, 0, 0, 0}
+	for _, seedSame := range []bool{true, false} {
+		for _, l := range lists {
+			do("A", seedSame, []c31msg{{Type: "BLOCK", List: l}})
+			do("A", seedSame, []c31msg{{Type: "BLOCK", List: empty}, {Type: "NOTAR", List: l}})
+			do("A", seedSame, []c31msg{{Type: "NOTAR", List: l}, {Type: "BLOCK", List: empty}})
+			do("A", seedSame, []c31msg{{Type: "NBLOCK", List: l}})
+			do("A", seedSame, []c31msg{{Type: "BLOCK", List: empty}, {Type: "NBLOCK", List: l}})
+		}
+	}
+	// ---- part B
+	var letters []c31msg
+	for i := 0; i < 4; i++ {
+		for _, k := range []int{tkValid, tkBadSig, tkOtherHash} {
+			letters = append(letters, c31msg{Type: "TICKET", Who: i, Kind: k})
+		}
+	}
+	letters = append(letters, c31msg{Type: "TICKET", Who: 4, Kind: tkValid})
+	seq := make([]c31msg, L)
+	var recB func(pos int)
+	recB = func(pos int) {
+		if pos == L {
+			do("B", true, append([]c31msg{}, seq...))
+			for bp := 0; bp <= L; bp++ {
+				var msgs []c31msg
+				msgs = append(msgs, seq[:bp]...)
+				msgs = append(msgs, c31msg{Type: "BLOCK", List: empty})
+				msgs = append(msgs, seq[bp:]...)
+				do("B", true, msgs)
+			}
+			return
+		}
+		for _, l := range letters {
+			seq[pos] = l
+			recB(pos + 1)
+		}
+	}
+	recB(0)
+	// ---- part C
+	rep := [][]int{
+		{0, 0, 0, 0, 0},
+		{1, 1, 0, 0, 0},                // 2 valid
+		{0, 1, 1, 2, 0},                // 2 valid + 1 bad signature
+		{0, 1, 1, 1, 0},                // 3 valid
+		{0, 1, 4, 0, 0},                // 1 valid + duplicated valid (3 entries, 2 miners)
+		{0, 0, 0, 4, 1},                // duplicated valid + outsider (3 entries, 1 miner)
+		{3, 3, 3, 0, 0},                // 3 tickets valid for another hash
+	}
+	var lettersC []c31msg
+	for _, l := range rep {
+		lettersC = append(lettersC, c31msg{Type: "BLOCK", List: l}, c31msg{Type: "NOTAR", List: l})
+	}
+	for i := 0; i < 4; i++ {
+		lettersC = append(lettersC, c31msg{Type: "TICKET", Who: i, Kind: tkValid}, c31msg{Type: "TICKET", Who: i, Kind: tkBadSig})
+	}
+	var seqC []c31msg
+	var recC func()
+	recC = func() {
+		if len(seqC) > 0 {
+			do("C", true, append([]c31msg{}, seqC...))
+		}
+		if len(seqC) == 3 {
+			return
+		}
+		for _, l := range lettersC {
+			if l.Type == "BLOCK" {
+				has := false
+				for _, p := range seqC {
+					if p.Type == "BLOCK" {
+						has = true
+					}
+				}
+				if has {
+					continue
+				}
+			}
+			seqC = append(seqC, l)
+			recC()
+			seqC = seqC[:len(seqC)-1]
+		}
+	}
+	recC()
+	writeShard(so)
+}
+
+func (e *c31env) scenario(part string, seedSame bool, msgs []c31msg) {
+	so := e.so
+	mc := e.m.MC
+	so.States++
+	e.m.reset()
+	mc.VerifResetNotarizationState()
+	mr := mc.CreateRound(round.NewRound(1))
+	mr = mc.AddRound(mr).(*miner.Round)
+	if seedSame {
+		mc.SetRandomSeed(mr, e.seed)
+	} else {
+		mc.SetRandomSeed(mr, e.seed+1)
+	}
+	e.w.Chain.VerifSetCurrentRound(2)
+	defer mr.CancelVerification()
+
+	names := make([]string, len(msgs))
+	for i, m := range msgs {
+		names[i] = m.String()
+	}
+	var delivered []*block.VerificationTicket
+	var received []*block.Block
+	for step, msg := range msgs {
+		switch msg.Type {
+		case "BLOCK":
+			rb := e.decodeBlock(msg.List)
+			received = append(received, rb)
+			delivered = append(delivered, e.tickets(msg.List)...)
+			_ = mc.VerifProcessVerifyBlock(e.m.Ctx, rb)
+		case "NBLOCK":
+			rb := e.decodeBlock(msg.List)
+			received = append(received, rb)
+			delivered = append(delivered, e.tickets(msg.List)...)
+			mc.VerifHandleNotarizedBlockMessage(e.m.Ctx, &miner.BlockMessage{Type: miner.MessageNotarizedBlock, Sender: e.m.minerNode(1), Block: rb})
+		case "NOTAR":
+			not := datastore.GetEntityMetadata("block_notarization").Instance().(*miner.Notarization)
+			not.BlockID, not.Round, not.VerificationTickets = e.H, 1, e.tickets(msg.List)
+			not.Block = e.decodeBlock(nil) // the sender's copy (SendNotarization sets it; it is the entity's read lock)
+			delivered = append(delivered, not.VerificationTickets...)
+			rn := datastore.GetEntityMetadata("block_notarization").Instance().(*miner.Notarization)
+			if err := datastore.FromMsgpack(bytes.NewReader(datastore.ToMsgpack(not).Bytes()), rn); err != nil {
+				ev.Fatal("notarization wire: %v", err)
+			}
+			bm := miner.NewBlockMessage(miner.MessageNotarization, e.m.minerNode(1), nil, nil)
+			bm.Notarization = rn
+			mc.VerifHandleNotarizationMessage(e.m.Ctx, bm)
+			select {
+			case q := <-mc.VerifNotarizationQueue(): // what NotarizationProcessWorker does
+				if err := mc.VerifNotarizationProcess(e.m.Ctx, q); err != nil {
+					so.Outcomes["notarizationProcess-error:"+shortErr(err)]++
+				}
+			default:
+				so.Outcomes["notarization-message-dropped-by-processNotarization"]++
+			}
+		case "TICKET":
+			vt := e.ticket(msg.Who, msg.Kind)
+			delivered = append(delivered, vt)
+			bvt := &block.BlockVerificationTicket{VerificationTicket: *vt, Round: 1, BlockID: e.H}
+			rt := datastore.GetEntityMetadata("block_verification_ticket").Instance().(*block.BlockVerificationTicket)
+			if err := datastore.FromJSON(bytes.NewReader(datastore.ToJSON(bvt).Bytes()), rt); err != nil {
+				ev.Fatal("ticket wire: %v", err)
+			}
+			bm := miner.NewBlockMessage(miner.MessageVerificationTicket, e.m.minerNode(1), nil, nil)
+			bm.BlockVerificationTicket = rt
+			mc.VerifHandleVerificationTicketMessage(e.m.Ctx, bm)
+		}
+		so.Transitions++
+
+		// ---- observe
+		validMiners := map[int]bool{}
+		for _, vt := range delivered {
+			if i, ok := e.refValid(vt); ok {
+				validMiners[i] = true
+			}
+		}
+		notarized := false
+		var where []string
+		var held []*block.VerificationTicket
+		if lb, err := mc.GetBlock(e.m.Ctx, e.H); err == nil && lb != nil {
+			held = lb.GetVerificationTickets()
+			if lb.IsBlockNotarized() {
+				notarized = true
+				where = append(where, "chain-block.IsBlockNotarized")
+			}
+		}
+		for _, rb := range received {
+			if rb.IsBlockNotarized() {
+				notarized = true
+				where = append(where, "received-block.IsBlockNotarized")
+				if len(held) == 0 {
+					held = rb.GetVerificationTickets()
+				}
+				break
+			}
+		}
+		for _, nb := range mr.GetNotarizedBlocks() {
+			if nb.Hash == e.H {
+				notarized = true
+				where = append(where, "round.notarized-blocks")
+			}
+		}
+		so.Evals++
+		if notarized && len(validMiners) < e.threshold {
+			// which non-contributing kinds does the block hold?
+			kinds := map[string]bool{}
+			seen := map[string]bool{}
+			for _, vt := range held {
+				i, ok := e.refValid(vt)
+				switch {
+				case i < 0:
+					kinds["non-miner"] = true
+				case !ok:
+					sig := vt.Signature
+					if sig == e.sig[fmt.Sprintf("%d/%d", i, tkOtherHash)] {
+						kinds["other-hash"] = true
+					} else {
+						kinds["bad-signature"] = true
+					}
+				case seen[vt.VerifierID]:
+					kinds["duplicate"] = true
+				}
+				seen[vt.VerifierID] = true
+			}
+			ks := make([]string, 0, len(kinds))
+			for k := range kinds {
+				ks = append(ks, k)
+			}
+			sort.Strings(ks)
+			handler := map[string]string{"BLOCK": "processVerifyBlock", "NOTAR": "notarizationProcess", "NBLOCK": "handleNotarizedBlockMessage", "TICKET": "handleVerificationTicketMessage"}[msg.Type]
+			key := fmt.Sprintf("C31:%s:notarized-below-threshold:counts[%s]", handler, strings.Join(ks, ","))
+			so.violate(key, fmt.Sprintf("after %s the node treats block %s as notarized (%s) although only %d distinct miners have delivered a valid signature on its hash (threshold %d); tickets held by the block: %d", names[step], e.H[:8], strings.Join(where, ", "), len(validMiners), e.threshold, len(held)),
+				map[string]any{"part": part, "round_seed_equals_block_seed": seedSame, "messages": names, "failing_step": step, "threshold": e.threshold, "valid_distinct_miners": len(validMiners)})
+		}
+		shape := make([]string, 0, step+1)
+		for _, m := range msgs[:step+1] {
+			shape = append(shape, m.Type)
+		}
+		so.Outcomes[fmt.Sprintf("%s/%s/valid-miners=%d/held=%d/notarized=%v", part, strings.Join(shape, ">"), len(validMiners), len(held), notarized)]++
+	}
+	if so.States%503 == 1 {
+		so.sample(map[string]any{"part": part, "messages": names})
+	}
+}
+
+func shortErr(err error) string {
+	s := err.Error()
+	if i := strings.Index(s, ","); i > 0 {
+		s = s[:i]
+	}
+	if len(s) > 50 {
+		s = s[:50]
+	}
+	return s
+}
